@@ -41,7 +41,7 @@ pub fn query_get_previous_price(
     let prices = prices_response.unwrap();
     let latest_price = prices.last().unwrap();
 
-    if num_round_back > latest_price.round_id {
+    if num_round_back >= latest_price.round_id {
         return Err(StdError::generic_err("Not enough history"));
     }
 
